@@ -321,8 +321,20 @@ int main() {
     } else if (cmd == "end") {
       Built b = build(tree);
       if (!b.error.empty()) {
-        std::cout << "{\"error\":\"" << GurobiSolver::jsonEscape(b.error) << "\"}"
-                  << std::endl;
+        // the tree was rejected; the nodes that were built still carry the time
+        // bounds the passes left on them
+        std::cout << "{\"error\":\"" << GurobiSolver::jsonEscape(b.error)
+                  << "\",\"time_bounds\":{";
+        bool firstNode = true;
+        for (auto& [idx, e] : b.nodes) {
+          if (!e) continue;
+          auto tb = e->getTimeBounds();
+          std::cout << (firstNode ? "" : ",") << "\"" << idx << "\":["
+                    << tb.startTimeRange.first << "," << tb.startTimeRange.second << ","
+                    << tb.endTimeRange.first << "," << tb.endTimeRange.second << "]";
+          firstNode = false;
+        }
+        std::cout << "}}" << std::endl;
         continue;
       }
       std::cout << "{\"root_parse_type\":" << b.rootParseType << ",\"parse_types\":{";
@@ -334,6 +346,19 @@ int main() {
           auto pr = e->getParsedResult();
           int t = pr.has_value() && pr.value() ? static_cast<int>(pr.value()->type) : -1;
           std::cout << (firstNode ? "" : ",") << "\"" << idx << "\":" << t;
+          firstNode = false;
+        }
+      }
+      std::cout << "},\"time_bounds\":{";
+      {
+        // the time bounds every node carries after the pre-translation passes:
+        // [earliest start, latest start, earliest end, latest end]
+        bool firstNode = true;
+        for (auto& [idx, e] : b.nodes) {
+          auto tb = e->getTimeBounds();
+          std::cout << (firstNode ? "" : ",") << "\"" << idx << "\":["
+                    << tb.startTimeRange.first << "," << tb.startTimeRange.second << ","
+                    << tb.endTimeRange.first << "," << tb.endTimeRange.second << "]";
           firstNode = false;
         }
       }
